@@ -75,9 +75,11 @@ def evaluate_all(model, ev=None):
     return out
 
 
-def observe_undoing(model):
+def observe_undoing(model, probe=None):
     """Evaluate every cell of the original, then undo the write-backs so the
-    observation does not become part of the history."""
+    observation does not become part of the history.  With `probe` =
+    (target, value) an existing input is changed first (and changed back by
+    the same undo): what the model answers after one more input change."""
     saved = []
     for coll in (model.cells, model.ranges):
         for obj in coll.values():
@@ -85,6 +87,8 @@ def observe_undoing(model):
             if d is not None:
                 saved.append((obj, dict(d)))
     try:
+        if probe is not None:
+            model.set_cell_value(probe[0], probe[1])
         return evaluate_all(model)
     finally:
         for obj, d in saved:
@@ -143,6 +147,15 @@ def gen_case(seed, tier='quick'):
         if rng.random() < 0.1:
             # called from an exception handler of the application
             op['in_except'] = True
+        real_inputs = [a for a in inputs if a in world['cells']]
+        if real_inputs and rng.random() < 0.3:
+            # original and restored model are both asked what they answer
+            # after one more input change (through a name if there is one)
+            a = rng.choice(real_inputs)
+            t = rng.choice(names_of[a]) if a in names_of and \
+                rng.random() < 0.6 else a
+            op['probe_set'] = {'target': t,
+                               'value': worlds.enc(c04.new_value(rng))}
         if faulty and rng.random() < 0.45:
             k = rng.choice(['eio', 'enospc', 'torn', 'short', 'short',
                             'interrupt', 'open', 'close'])
@@ -517,6 +530,19 @@ def _run(case, fs, amb):
                                       'open_error', 'close_error'})}
             if compiled:
                 snap['values'] = observe_undoing(model)
+                ps = op.get('probe_set')
+                if ps is not None:
+                    pa = world['names'].get(ps['target'], ps['target'])
+                    cell_ = model.cells.get(pa) if isinstance(
+                        model.cells, dict) else None
+                    known_ = ps['target'] == pa or getattr(
+                        model.defined_names.get(ps['target']), 'address',
+                        None) == pa
+                    if cell_ is not None and cell_.formula is None \
+                            and known_:
+                        snap['probe_set'] = ps
+                        snap['values_after_set'] = observe_undoing(
+                            model, (ps['target'], worlds.dec(ps['value'])))
             else:
                 pending_values.append(path)
             snaps[path] = snap
@@ -605,6 +631,23 @@ def _run(case, fs, amb):
                     viol = fail('restored-model-evaluates-differently', seq,
                                 path=path, persisted_in_state=snap['state'],
                                 diff=diff_dumps(snap['values'], vals))
+                    break
+            if snap.get('values_after_set') is not None:
+                # equivalent also means: answers one more input change the
+                # way the original did
+                ps = snap['probe_set']
+                try:
+                    vals2 = observe_undoing(
+                        new, (ps['target'], worlds.dec(ps['value'])))
+                except Exception as e:      # noqa - the set itself failed
+                    vals2 = {'<set>': ['exc', type(e).__name__, False]}
+                bump('probe:restored_model_probed_with_input_change')
+                if vals2 != snap['values_after_set']:
+                    viol = fail('restored-model-diverges-after-input-change',
+                                seq, path=path, probe=ps,
+                                persisted_in_state=snap['state'],
+                                diff=diff_dumps(snap['values_after_set'],
+                                                vals2))
                     break
             bump('probe:restore_judged_equal')
             if snap['state'].endswith('e'):
